@@ -3,6 +3,7 @@
 #define STREAM_EXPLORE_H
 #include "streams.h"
 #include "explore.h"
+static int SE_IN_START; /* 1: every input chunk STARTS right behind an inaccessible page (a read in front of it faults); 0: it ENDS at one */
 
 static long nfail;
 static char ctxdesc[512];
@@ -77,7 +78,7 @@ static int inf_call(int ci, int co, const struct ex_model *m)
 	size_t cap = co < 0 ? (I_INVALID ? IXLEN + 600 : IXLEN - ICUR.out_off + 64) : (size_t)co;
 	if (IHDRLEN && ICUR.in_off < IHDRLEN && ICUR.in_off + k < IHDRLEN && (ICUR.in_off + k) > 0)
 		ICUR.tainted = 1; /* this history splits a rich gzip header across calls: known finding, see known_findings.txt */
-	uint8_t *in = g_alloc(k, G_END), *out = g_alloc(cap, G_END);
+	uint8_t *in = g_alloc(k, SE_IN_START ? G_START : G_END), *out = g_alloc(cap, G_END);
 	memcpy(in, IS + ICUR.in_off, k);
 	IST->next_in = in;
 	IST->avail_in = (uint32_t)k;
@@ -302,10 +303,12 @@ static void inflate_part(void)
 				return;
 			inf_select(&OS[si], cpus[ci]);
 			g_strict_free = 1;
+			SE_IN_START = (si + ci) & 1; /* alternate graphs guard the front / the end of every input chunk */
 			inf_reset();
 			struct ex_stats st = { 0 };
 			ex_run(&inf_model, &st, v_thorough ? 3000000 : 400000);
 			g_strict_free = 0;
+			SE_IN_START = 0;
 			v_count("states", st.states);
 			v_count("transitions", st.transitions);
 			v_count("traces_validated_against_impl", st.terminals);
@@ -510,7 +513,7 @@ static int def_call(int ci, int co, int flush, int eos_late, const struct ex_mod
 		}
 		in = se_contig_buf + se_contig_cap - DINLEN + DCUR.in_off;
 	} else {
-		in = g_alloc(k, G_END);
+		in = g_alloc(k, SE_IN_START ? G_START : G_END);
 		memcpy(in, DIN + DCUR.in_off, k);
 	}
 	DST->next_in = in;
@@ -757,7 +760,9 @@ static int deflate_graph(const char *name, const uint8_t *p, int len, int level,
 	DGZ = gz;
 	DLBS = lvl_min[level];
 	cpu_set_level(cpu);
-	snprintf(ctxdesc, sizeof ctxdesc, "input=%s level=%d wrapper=%s level_buf=MIN cpu=%s flush_budget=%d", name, level, gz_name[gz], cpu_level_name[cpu], F);
+	static unsigned graph_no;
+	SE_IN_START = !SE_CONTIG && (graph_no++ & 1); /* alternate graphs guard the front / the end of every fresh input chunk */
+	snprintf(ctxdesc, sizeof ctxdesc, "input=%s level=%d wrapper=%s level_buf=MIN cpu=%s flush_budget=%d%s", name, level, gz_name[gz], cpu_level_name[cpu], F, SE_IN_START ? " input-chunks=start-flush" : "");
 	def_model.image_size = def_img_size();
 	def_model.nchoices = NDCHOICE;
 	g_strict_free = 1;
@@ -765,6 +770,7 @@ static int deflate_graph(const char *name, const uint8_t *p, int len, int level,
 	struct ex_stats st = { 0 };
 	ex_run(&def_model, &st, max_states);
 	g_strict_free = 0;
+	SE_IN_START = 0;
 	v_count("states", st.states);
 	v_count("transitions", st.transitions);
 	v_count("traces_validated_against_impl", st.terminals);
